@@ -674,10 +674,11 @@ func sameLevel(i *Iter) bool {
 //@   safe
 
 // ---------------------------------------------------------------------------
-// Deserialize: no panic on arbitrary bytes (C19). Declared section sizes are assumed allocatable
-// (the property's own caveat), stated as an assumption on what ReadUvarint returns.
+// Deserialize: no panic on arbitrary bytes (C19). Declared SECTION sizes (tape, strings, message, tags, values) are
+// assumed allocatable (the property's own caveat), stated as an assumption on what ReadUvarint returns inside
+// Deserialize only; block sizes read by decBlock are arbitrary 64-bit values.
 
-//@ extern encoding/binary.ReadUvarint ensures r0 <= 1<<31
+//@ extern encoding/binary.ReadUvarint@(*Serializer).Deserialize ensures r0 <= 1<<31
 
 //@ func (*Serializer).decBlock
 //@   props C19
